@@ -11,7 +11,7 @@ D = decimal.Decimal
 CASES = {'quick': 4000, 'thorough': 120000}
 GATES = {
     'quick': {'evaluations': 12000, 'parsed_values': 6000, 'applications': 5000, 'attached_operand_applications': 600,
-              'forms_seen': 10, 'chains_ge3': 400, 'results_needing_parens': 300},
+              'forms_seen': 10, 'zero_constant_operands': 200, 'independence_checks': 3000, 'chains_ge3': 400, 'results_needing_parens': 300},
     'thorough': {'evaluations': 400000, 'forms_seen': 10},
 }
 RULE = ('case = two random expression texts (depth <=4, arbitrary spacing, redundant parentheses, thousands separators) parsed as '
@@ -20,7 +20,9 @@ RULE = ('case = two random expression texts (depth <=4, arbitrary spacing, redun
         'number, price amount, cost, meta value). One evaluation = one parsed value compared with an independent recursive-descent '
         'evaluator over the characters, or one application checked: result value == arithmetic on the operand values, the evaluator on '
         'the printed result == that value, re-parsing the printed result gives it again, M3 on the result, and for non-in-place forms '
-        'both operands print as before, keep a valid tree, and the token snapshot of every owning document is unchanged. Non-trivial = '
+        'both operands print as before, keep a valid tree, the token snapshot of every owning document is unchanged, the result is a new '
+        'object sharing no token or store with an operand, and every operand of an earlier application keeps its snapshot through all '
+        'later steps of the chain (also in-place ones applied to the result). Numeric operands include 0 and 0.00. Non-trivial = '
         'the expression has >=1 operator; distinct = hash(expression texts, operator chain). Zero divisors are not generated.')
 ASSUMPTIONS = ['reference evaluator: decimal default context, left-associative, unary binds tighter than binary (DESIGN.md A.5)']
 
@@ -159,6 +161,7 @@ def run_case(col, r, idx):
     # chain of applications
     acc = make_operand(col, r, texts[0], vals[0])
     chain = []
+    watch = []          # operands of earlier non-in-place applications with their snapshots: later steps must not reach them
     nsteps = r.randint(1, 6)
     for step in range(nsteps):
         o = r.choice('+-*/')
@@ -172,12 +175,18 @@ def run_case(col, r, idx):
                     continue
                 exp = OPS[o](acc.value, other.value)
             elif form in ('rint', 'rdec'):
-                c = 3 if form == 'rint' else D('-2.5')
+                c = r.choice([3, 3, 0, 1, -2]) if form == 'rint' else r.choice([D('-2.5'), D('-2.5'), D('0'), D('0.00'), D('1')])
                 if o == '/' and acc.value == 0:
                     continue
+                if c == 0:
+                    col.count('zero_constant_operands')
                 exp = OPS[o](D(c), acc.value)
             elif form in ('int', 'dec', 'inplace_num'):
-                c = 4 if form != 'dec' else D('0.5')
+                c = r.choice([4, 4, 0, 1, -3]) if form != 'dec' else r.choice([D('0.5'), D('0.5'), D('0'), D('0.00'), D('1.0')])
+                if o == '/' and c == 0:
+                    continue
+                if c == 0:
+                    col.count('zero_constant_operands')
                 exp = OPS[o](acc.value, D(c))
             elif form == 'inplace':
                 other = make_operand(col, r, texts[ti], vals[ti])
@@ -263,7 +272,20 @@ def run_case(col, r, idx):
         if errs:
             col.violation(f'result-tree:{errs[0][0]}:{form}', errs[0][1], wit)
             return
+        for w_op, w_snap, w_desc in watch:
+            if w_op.expr is not acc.expr and w_op.snap() != w_snap:
+                col.violation(f'earlier-operand-changed-by-later-step:{form}', f'an operand of the earlier application {w_desc} changed when '
+                              f'{form} {o} was applied to its result: now {common.pr(w_op.expr)!r}', wit)
+                return
         if not inplace:
+            col.count('independence_checks')
+            res_tokens = {id(t) for t in res.token_store}
+            for opnd in (acc, other):
+                if opnd is not None and (res is opnd.expr or res.token_store is opnd.expr.token_store
+                                         or any(id(t) in res_tokens for t in opnd.expr.tokens)):
+                    col.violation(f'result-aliases-operand:{form}{o}', 'the result of a non-in-place operator is, or shares tokens with, '
+                                  'an operand: a later edit of the result would edit the operand', wit)
+                    return
             if acc.snap() != a_before:
                 col.violation(f'left-operand-changed:{form}:{kinds}', f'left operand / its document changed: now {common.pr(acc.expr)!r}', wit)
                 return
@@ -276,6 +298,9 @@ def run_case(col, r, idx):
                     if errs:
                         col.violation(f'operand-tree:{errs[0][0]}:{form}', errs[0][1], wit)
                         return
+            watch.append((acc, a_before, desc))
+            if other is not None:
+                watch.append((other, b_before, desc))
             acc = Operand(res, exp, 'free')
         else:
             if res is not acc.expr:
